@@ -163,7 +163,7 @@ def run(ctx):
            "" if got == "abort" else f"FailedPause ends in `{A.head(by) if by is not None else 'no handler'}` and is recorded as {got!r}",
            nontrivial=True, where=where(run_f, by if by is not None else rm.outer_try))
 
-CLAIM = {'text': "Decides that a pause or suspension without a checkpoint cannot reach the pause block or the suspension continuation (typestate: those nodes are reached with resumable tuples only), that the not-resumable branch stashes FailedPause, sets the permit and moves to 'aborting', that request_suspend does the same before pushing the suspender plan, that the message cache is discarded only by clear_checkpoint and 'resumable' means 'cache exists', and that FailedPause is recorded as 'abort'. Cleanup and closing of runs are C01/C06 clauses.", 'technique': 'typestate fixpoint query; branch shape; ownership; table agreement'}
+CLAIM = {'text': "Decides that a pause or suspension without a checkpoint cannot reach the pause block or the suspension continuation (typestate: those nodes are reached with resumable tuples only), that the not-resumable branch stashes FailedPause, sets the permit and moves to 'aborting', that request_suspend does the same before pushing the suspender plan, that the message cache is discarded only by clear_checkpoint and 'resumable' means 'cache exists', that the pending status failure is taken and cleared on every loop iteration, and that FailedPause is recorded as 'abort'. Cleanup and closing of runs are C01/C06 clauses.", 'technique': 'typestate fixpoint query; branch shape; ownership; table agreement'}
 
 
 RE = "run_engine.py"
